@@ -180,6 +180,8 @@ static int exact_msp(double v) {
                 } else { \
                     free(d); \
                 } \
+            } else { \
+                SET_RESULT(CIF_MEMORY_ERROR); \
             } \
         } \
     } \
@@ -852,8 +854,9 @@ static int cif_table_deserialize(struct table_value_s *table, read_buffer_tp *bu
                     DESERIALIZE(struct entry_s, entry, buf, value);
                     entry->key = key;
                     entry->key_orig = ((key_orig == NULL) ? key : key_orig);
+/* All uthash fatal errors arise from memory allocation failure */
 #undef  uthash_fatal
-#define uthash_fatal(msg) DEFAULT_FAIL(hash)
+#define uthash_fatal(msg) FAIL(hash, CIF_MEMORY_ERROR)
                     HASH_ADD_KEYPTR(hh, temp.as_table.map.head, entry->key, U_BYTES(entry->key), entry);
                     break;
                 default:
